@@ -84,15 +84,15 @@ def run_probe(exe, texts, timeout=20.0, env=None, mem_gb=4):
             files.append(p)
         try:
             p = subprocess.run([exe] + files, stdout=subprocess.PIPE, stderr=subprocess.PIPE, text=True, timeout=timeout,
-                               env=env or drv.san_env(), preexec_fn=drv._limits(mem_gb), errors="replace", cwd=d)
+                               env=env or drv.san_env(), preexec_fn=drv._limits(mem_gb, exe), errors="replace", cwd=d)
             out.stdout = p.stdout
             if p.returncode != 0:
-                out.crash = drv.Crash(p.returncode, p.stderr[-4000:])
+                out.crash = drv.Crash(p.returncode, drv.clip(p.stderr))
             _parse(out, p.stdout)
         except subprocess.TimeoutExpired as ex:
             so = ex.stdout.decode(errors="replace") if isinstance(ex.stdout, bytes) else (ex.stdout or "")
             se = ex.stderr.decode(errors="replace") if isinstance(ex.stderr, bytes) else (ex.stderr or "")
-            out.crash = drv.Crash(None, se[-2000:], timeout=True)
+            out.crash = drv.Crash(None, drv.clip(se), timeout=True)
             try:
                 _parse(out, so)
             except ValueError:
@@ -125,7 +125,7 @@ def run_cli(bdir, texts, timeout=20.0, mem_gb=4):
                 js = json.load(open(sol))
             except ValueError:
                 js = "unparsable"
-        crash = drv.Crash(p.returncode, p.stderr[-3000:]) if p.returncode not in (0, 1) else None
+        crash = drv.Crash(p.returncode, drv.clip(p.stderr)) if p.returncode not in (0, 1) else None
         return p.returncode, p.stdout, js, crash
     finally:
         shutil.rmtree(d, ignore_errors=True)
